@@ -24,7 +24,7 @@ DECLS = {
     'int64': ['integer', 'int', 'bigint', 'INTEGER'],
     'float64': ['real', 'float', 'double', 'REAL'],
     'boolean': ['boolean', 'bool'],
-    'ostr': ['text', 'varchar', 'TEXT'],
+    'ostr': ['text', 'varchar', 'TEXT', 'text PRIMARY KEY'],
     'dt64s': ['datetime', 'date', 'timestamp'],
 }
 
@@ -69,7 +69,7 @@ def restrict_col(c):
         cells = out
     name = c['name'].replace('"', "'")
     return {'name': name, 'kind': nk, 'cells': cells,
-            'decl': c.get('decl') or _pick(DECLS[nk], name)}
+            'decl': c.get('decl') or _pick(DECLS[nk][:3], name)}
 
 
 def restrict_frame(frame):
@@ -92,6 +92,13 @@ def valid_for_sqlite(frame):
     for c in frame['cols']:
         if c['kind'] not in DECLS or c.get('decl') not in DECLS[c['kind']]:
             return False
+        if 'PRIMARY KEY' in c['decl']:
+            # (SQLite lets a text primary key hold NULLs, but no duplicates)
+            nn_ = [v for v in c['cells'] if v is not None]
+            if len(set(nn_)) != len(nn_) or sum(
+                    1 for x in frame['cols'] if 'PRIMARY KEY' in x.get(
+                        'decl', '')) > 1:
+                return False
         nm = c['name']
         if '"' in nm or '\x00' in nm or nm.lower() in seen or (
                 not nm.strip()):
